@@ -472,7 +472,7 @@ type RGen struct {
 var (
 	PoolPrefix4      = []string{"0.0.0.0/0", "10.0.0.0/8", "10.1.0.0/16", "10.1.2.3", "10.1.2.2/31", "192.168.0.0/24", "10.1.2.3/8", "128.0.0.0/1", "255.255.255.255"}
 	PoolPrefix6      = []string{"::/1", "fd00::/8", "fd00::1", "2001:db8::/32", "2001:db8::2/127", "2001:db8:0:1::/64", "8000::/1", "ffff:ffff:ffff:ffff:ffff:ffff:ffff:ffff"}
-	PoolPrefixMapped = []string{"::ffff:10.1.0.0/112", "::ffff:0:0/96"}
+	PoolPrefixMapped = []string{"::ffff:10.1.0.0/112", "::ffff:0:0/96", "::ffff:10.1.2.3", "::ffff:a01:204"}
 	PoolPorts        = []string{"53", "80", "443", "1-1023", "80-443", "443-8443", "0", "65535", "1024-65535", "53-53"}
 	PoolMacs         = []string{"02:42:ac:11:00:02", "02:42:ac:11:00:03", "ff:ff:ff:ff:ff:ff", "00:00:00:00:00:01"}
 	PoolPnames       = []string{"curl", "mosdns", "NetworkManager", "sixteen-byte-nam", "sixteen-byte-name-longer", "sixteen-byte-nam2", "c"}
